@@ -98,6 +98,24 @@ func constArgAtAllCallers(idx int, allowed func(s string) bool) func(c *core.Ctx
 	}
 }
 
+// derivedFromAccountName: v is built from the name or the segments of an
+// existing (hence valid) account.
+func derivedFromAccountName(p *core.Prog, v ssa.Value) bool {
+	for x := range originSet(p, v, 2) {
+		switch y := x.(type) {
+		case *ssa.FieldAddr:
+			if f := core.FieldOf(y); f != nil && core.PkgPathOfVar(f) == pkgAccount && (f.Name() == "name" || f.Name() == "segments") {
+				return true
+			}
+		case *ssa.Call:
+			if callee := y.Call.StaticCallee(); callee != nil && core.PkgPathOf(callee) == pkgAccount && (callee.Name() == "Name" || callee.Name() == "Segments") {
+				return true
+			}
+		}
+	}
+	return false
+}
+
 func validAccountName(s string) bool {
 	parts := strings.Split(s, ":")
 	switch parts[0] {
@@ -134,7 +152,7 @@ func RuleCPanic(c *core.Ctx) {
 	reach := p.ReachLexical(entries...)
 	reviews := map[string]panicReview{
 		"(*lib/model/account.Registry).MustGet:panic": {
-			reason: "MustGet panics when Get fails; it is called with constant, valid account names, or (ValuationAccountFor) with a name joined from the validated segments of an existing account under the constant root Income",
+			reason: "MustGet panics when Get fails; it is called with constant, valid account names, or — inside the account package — with a name built from the name or segments of an account that already exists (ValuationAccountFor, SwapType)",
 			check: func(c *core.Ctx, site panicSite) string {
 				p := c.P
 				n := p.CG.Nodes[site.fn]
@@ -149,8 +167,8 @@ func RuleCPanic(c *core.Ctx) {
 						}
 						continue
 					}
-					if core.FuncName(e.Caller.Func) == "(*lib/model/account.Registry).ValuationAccountFor" {
-						continue
+					if core.PkgPathOf(e.Caller.Func) == pkgAccount && derivedFromAccountName(p, arg) {
+						continue // inside the registry's package, from the name of an account that exists
 					}
 					return "non-constant account name at " + p.Pos(e.Site.Pos()) + " in " + core.FuncName(e.Caller.Func)
 				}
